@@ -10,9 +10,6 @@ LOCAL Modulus(f) == IF f = "Fq" THEN Q ELSE R
 LOCAL Width(f)   == IF f = "Fq" THEN 384 ELSE 256
 Reverse(s) == [i \in 1..Len(s) |-> s[Len(s) + 1 - i]]
 
-(* Option-valued results: <<"none">> or <<"some", v>> *)
-IsNone(o) == Len(o) = 1 /\ o[1] = "none"
-IsSome(o) == Len(o) = 2 /\ o[1] = "some"
 
 (* 2-adicity of n > 0 *)
 RECURSIVE TwoAdicity(_)
